@@ -1,13 +1,21 @@
 #!/bin/bash
-# runs every seeded defect (from /tmp/seed/*/out or /verif/seeded) against the check of its property; each must yield exit 1 + VIOLATION
-pass=0; fail=0
+# runs every seeded defect (/verif/seeded/<id>-n, or not-yet-confirmed ones under /tmp/seed2) against the check of its property;
+# each must yield exit 1 + VIOLATION.  usage: regress_seeded.sh [parallelism]
+par=${1:-4}
+list=$(mktemp)
 for id in C01 C02 C03 C04 C05 C06 C07 C08 C09 C10 C11 C12 C13 C14 C16 C17 C18 C19; do
-  for n in 1 2; do
+  for n in 1 2 3 4 5 6; do
     p=/verif/seeded/$id-$n/patch.diff
-    [ -f $p ] || p=/tmp/seed/$id/out/$n/patch.diff
-    [ -f $p ] || { echo "?? $id-$n no patch"; continue; }
-    out=$(/verif/tools/mutcheck.sh $id $p 2>&1); rc=$?
-    if [ $rc -eq 1 ] && echo "$out" | grep -q "^VIOLATION property=$id"; then pass=$((pass+1)); else fail=$((fail+1)); echo "MISSED $id-$n rc=$rc"; echo "$out" | tail -3 | cut -c1-200; fi
+    [ -f $p ] || { [ $n -ge 3 ] && p=/tmp/seed2/$id/out/$((n-2))/patch.diff; }
+    [ -f $p ] || continue
+    echo "$id $n $p" >> $list
   done
 done
-echo "seeded: detected=$pass missed=$fail"
+one() { id=$1; n=$2; p=$3
+  out=$(/verif/tools/mutcheck.sh $id $p 2>&1); rc=$?
+  if [ $rc -eq 1 ] && echo "$out" | grep -q "^VIOLATION property=$id"; then echo "DETECTED $id-$n"; else echo "MISSED $id-$n rc=$rc"; echo "$out" | tail -3 | cut -c1-200; fi; }
+export -f one
+xargs -P $par -L 1 bash -c 'one $0 $1 $2' < $list | sort > $list.out
+grep -v '^DETECTED' $list.out
+echo "seeded: detected=$(grep -c '^DETECTED' $list.out) missed=$(grep -c '^MISSED' $list.out)"
+rm -f $list $list.out
